@@ -124,7 +124,7 @@ def gen(seed, per_file):
             rnd.shuffle(cands)
             out += cands[:per_file]
     for k, c in enumerate(out):
-        c["id"] = "M%04d" % k
+        c["id"] = "S%d-M%04d" % (seed, k)
     os.makedirs(WORK, exist_ok=True)
     json.dump(out, open(os.path.join(WORK, "mutants.json"), "w"), indent=0)
     print("%d mutants over %d files -> %s/mutants.json" % (len(out), len(set(c["file"] for c in out)), WORK))
@@ -193,14 +193,17 @@ def run(jobs, only):
     if only:
         ms = [m for m in ms if re.search(only, m["file"]) or re.search(only, m["id"])]
     done = set()
+    same = set()
     rp = os.path.join(WORK, "results.jsonl")
     if os.path.exists(rp):
         for ln in open(rp):
             try:
-                done.add(json.loads(ln)["id"])
+                r = json.loads(ln)
+                done.add(r["id"])
+                same.add((r["file"], r["line"], r["col"], r["new"]))
             except Exception:
                 pass
-    todo = [m for m in ms if m["id"] not in done]
+    todo = [m for m in ms if m["id"] not in done and (m["file"], m["line"], m["col"], m["new"]) not in same]
     print("%d to run (%d done)" % (len(todo), len(done)))
     import queue
     slots = queue.Queue()
